@@ -16,7 +16,7 @@ PREDICATES = ["is_logical_constraint", "is_arithmetic_constraint", "is_aggregati
               "is_requires_constraint", "is_excludes_constraint", "is_pseudocomplex_constraint",
               "is_strictcomplex_constraint", "get_features"]
 
-NAMES = ["A", "B", "C"]
+NAMES = ["A", "B", "C", "D", "E", "F"]
 
 
 def check(pm: ProgramModel, ctx: Ctx) -> None:
@@ -49,6 +49,8 @@ def check(pm: ProgramModel, ctx: Ctx) -> None:
         methods[nme] = m
     small = ctx.tier == "quick"
     trees = fam.all(small)
+    nlarge_from = len(trees)
+    trees += fam.large()
     ctx.analysed["C18:trees"] = len(trees)
     ops = pm.enum_members(pm.cls("ASTOperation"))
     it = Interp(pm, max_depth=60)
@@ -84,7 +86,7 @@ def check(pm: ProgramModel, ctx: Ctx) -> None:
         freeze(tree)
         # quick tier: the split-dependent predicates on depth<=1, all negated operands and a
         # stride of the binary depth-2 trees; thorough: every tree
-        do_heavy = (not small) or ti < 69 + len(fam.operands(small)) or ti % 6 == 0
+        do_heavy = (not small) or ti < 69 + len(fam.operands(small)) or ti % 6 == 0 or ti >= nlarge_from
         c = mb.constraint("ctc", tree)
         c._f["_frozen"] = True
         c._f["_ast"]._f["_frozen"] = True
@@ -194,6 +196,7 @@ def check(pm: ProgramModel, ctx: Ctx) -> None:
     # split equivalence ---------------------------------------------------------------------------------
     split_trees = list(fam.depth1()) + [x for i, x in enumerate(fam.depth2(small))
                                         if small is False or i < len(fam.operands(small)) or i % 6 == 0]
+    split_trees += fam.large()
     nsplit = 0
     for tree in split_trees:
         freeze(tree)
